@@ -49,6 +49,7 @@ type StreamSpec struct {
 	NoView  bool   `json:"noview"`  // rely on the kind's default aggregation (only when Agg is the default)
 	MaxSize int32  `json:"maxsize"` // exponential histogram
 	Meter   int    `json:"meter"`
+	Silent  bool   `json:"-"` // companion stream: executed, not written to the trace
 }
 
 func (s StreamSpec) float() bool { return s.Unit != 1 }
@@ -98,9 +99,7 @@ type Pt struct {
 	Pos    [][2]int64 `json:"pos"`
 	Neg    [][2]int64 `json:"neg"`
 	Sle    bool       `json:"sle"`
-	Tok    bool       `json:"tok"`
-	Slo    int        `json:"slo"`
-	Shi    int        `json:"shi"`
+	Sgap   bool       `json:"sgap"`
 	Sprev  string     `json:"sprev"`
 	Scont  string     `json:"scont"`
 	Sfirst string     `json:"sfirst"`
@@ -116,7 +115,7 @@ func (p Pt) MarshalJSON() ([]byte, error) {
 }
 
 func noPt() Pt {
-	return Pt{X: true, B: []int64{}, Pos: [][2]int64{}, Neg: [][2]int64{}, Sle: true, Tok: true, Slo: -1, Shi: -2,
+	return Pt{X: true, B: []int64{}, Pos: [][2]int64{}, Neg: [][2]int64{}, Sle: true, Sgap: true,
 		Sprev: "na", Scont: "na", Sfirst: "na"}
 }
 
@@ -268,8 +267,10 @@ type scenario struct {
 	meters  []metric.Meter
 	regs    map[int]multiReg
 	ncb     int
-	lo, hi  [2][]time.Time // per reader: bracket j (0 = creation of the instruments, k = k-th collection)
-	errs    int
+	// per reader: seen[k] = latest Time the reader reported (any stream) in its collections 1..k;
+	// only timestamps produced by the SDK are ever compared with each other (no harness clock)
+	seen [2][]time.Time
+	errs int
 }
 
 func (s *stream) value(j int) (int64, float64) {
@@ -345,7 +346,6 @@ func newScenario(rng *rand.Rand, specs []StreamSpec, ncb int, reuse bool, deltaF
 	sc.mp = sdkmetric.NewMeterProvider(opts...)
 	sc.meters = []metric.Meter{sc.mp.Meter("c08/m0"), sc.mp.Meter("c08/m1", metric.WithInstrumentationVersion("1"))}
 	sc.rms = [2]*metricdata.ResourceMetrics{{}, {}}
-	t0 := time.Now()
 	for _, sp := range specs {
 		s := &stream{spec: sp, table: make([]int, sp.NA)}
 		s.trk[0] = &track{prevStart: map[int]time.Time{}, firstStart: map[int]time.Time{}}
@@ -354,10 +354,8 @@ func newScenario(rng *rand.Rand, specs []StreamSpec, ncb int, reuse bool, deltaF
 		sc.streams = append(sc.streams, s)
 		sc.byName[sp.Name] = s
 	}
-	t1 := time.Now()
 	for r := 0; r < 2; r++ {
-		sc.lo[r] = []time.Time{t0}
-		sc.hi[r] = []time.Time{t1}
+		sc.seen[r] = []time.Time{{}}
 	}
 	return sc
 }
@@ -552,9 +550,7 @@ func (sc *scenario) project(r int, k int, s *stream, found []metricdata.Metrics)
 		rd.Has = true
 		var raw []rawPt
 		rd.Dt, rd.Temp, raw = projectData(found[0].Data, s.spec.Unit)
-		if len(raw) == 0 {
-			rd.Junk++ // a metric without data points must not be reported
-		}
+		// (a metric without data points is not forbidden by the statement: Has, no points)
 		for _, rp := range raw {
 			a, ok := attrIndex[rp.attrs.Equivalent()]
 			if !ok || a > s.spec.NA || rd.Pts[a-1].P {
@@ -563,16 +559,7 @@ func (sc *scenario) project(r int, k int, s *stream, found []metricdata.Metrics)
 			}
 			p := rp.pt
 			p.Sle = !rp.start.After(rp.time)
-			p.Tok = !rp.time.Before(sc.lo[r][k]) && !rp.time.After(sc.hi[r][k])
-			p.Slo, p.Shi = -1, -2
-			for j := 0; j <= k; j++ {
-				if !rp.start.Before(sc.lo[r][j]) && !rp.start.After(sc.hi[r][j]) {
-					if p.Slo < 0 {
-						p.Slo = j
-					}
-					p.Shi = j
-				}
-			}
+			p.Sgap = k < 2 || !rp.start.Before(sc.seen[r][k-2])
 			eqAll := true
 			for _, t := range trk.prevTimes {
 				if !t.Equal(rp.start) {
@@ -610,24 +597,27 @@ func (sc *scenario) collect(deltaFirst bool) {
 			rm = &metricdata.ResourceMetrics{}
 			sc.rms[r] = rm
 		}
-		b := time.Now()
-		err := sc.readers[r].Collect(context.Background(), rm)
-		a := time.Now()
-		vh.Must(err)
-		sc.lo[r] = append(sc.lo[r], b)
-		sc.hi[r] = append(sc.hi[r], a)
+		vh.Must(sc.readers[r].Collect(context.Background(), rm))
 	}
-	// project only after both collections (nothing but time.Now between the two Collect calls)
+	// project only after both collections (nothing happens between the two Collect calls)
 	for r := 0; r < 2; r++ {
 		got[r] = map[string][]metricdata.Metrics{}
+		latest := sc.seen[r][len(sc.seen[r])-1]
 		for _, sm := range sc.rms[r].ScopeMetrics {
 			for _, m := range sm.Metrics {
 				got[r][m.Name] = append(got[r][m.Name], m)
+				_, _, raw := projectData(m.Data, 1)
+				for _, rp := range raw {
+					if rp.time.After(latest) {
+						latest = rp.time
+					}
+				}
 			}
 		}
+		sc.seen[r] = append(sc.seen[r], latest)
 	}
 	for _, s := range sc.streams {
-		k := len(sc.lo[0]) - 1
+		k := len(sc.seen[0]) - 1
 		d := sc.project(0, k, s, got[0][s.spec.Name])
 		c := sc.project(1, k, s, got[1][s.spec.Name])
 		ops := s.pending
@@ -657,7 +647,7 @@ func (sc *scenario) shutdown() { _ = sc.mp.Shutdown(context.Background()) }
 func (sc *scenario) flush(tw *vh.TraceWriter, scID *int, meta map[string]any) int {
 	n := 0
 	for _, s := range sc.streams {
-		if len(s.lines) == 0 {
+		if len(s.lines) == 0 || s.spec.Silent {
 			continue
 		}
 		*scID++
@@ -677,6 +667,9 @@ func (sc *scenario) flush(tw *vh.TraceWriter, scID *int, meta map[string]any) in
 
 func countRegimes(res *vh.Result, sc *scenario) {
 	for _, s := range sc.streams {
+		if s.spec.Silent {
+			continue
+		}
 		for i, l := range s.lines {
 			d := l["d"].(RD)
 			c := l["c"].(RD)
@@ -706,8 +699,11 @@ func countRegimes(res *vh.Result, sc *scenario) {
 					if d.Pts[a].Sc < 0 {
 						res.Count("expo_negative_scale_points", 1)
 					}
-					if d.Pts[a].Slo >= 0 && d.Pts[a].Shi > d.Pts[a].Slo {
-						res.Count("ambiguous_start_brackets", 1)
+					switch {
+					case d.Pts[a].Sprev == "eq":
+						res.Count("delta_start_eq_previous_time", 1)
+					case i > 0:
+						res.Count("delta_start_after_gap", 1)
 					}
 				}
 				if c.Pts[a].P {
@@ -726,8 +722,17 @@ type edge struct {
 	K    int  `json:"k"`
 }
 
+// heartbeat: a companion counter of the replayed scenarios, measured once before every collection
+// point, so that each reader reports at least one timestamp per collection (the structural
+// non-overlap relation sgap of the stream under test is then never vacuous).
+var heartbeat = StreamSpec{Cfg: Cfg{Kind: "Counter", Agg: "sum", NA: 1, Vals: []int64{1}, Unit: 1, Bounds: []int64{}, NCB: 1},
+	Name: "heartbeat", NoView: true, Meter: 1, Silent: true}
+
 func runOps(sc *scenario, s *stream, ops []Op, deltaFirst bool) {
 	for _, op := range ops {
+		if hb := sc.byName[heartbeat.Name]; hb != nil && op.Op == "Collect" {
+			sc.record(hb, 1, 1)
+		}
 		switch op.Op {
 		case "Rec":
 			sc.record(s, op.A, op.J)
@@ -772,16 +777,22 @@ func replay(args []string) {
 		}
 		variant := (int64(i) + vh.Seed()) // rm reuse / reader order / collection order vary with the edge
 		rng := rand.New(rand.NewSource(variant))
-		sc := newScenario(rng, []StreamSpec{spec}, spec.NCB, variant%2 == 0, (variant/2)%2 == 0)
+		specs := []StreamSpec{spec, heartbeat}
+		if (variant/8)%2 == 0 { // creation order of the two instruments varies as well
+			specs = []StreamSpec{heartbeat, spec}
+		}
+		sc := newScenario(rng, specs, spec.NCB, variant%2 == 0, (variant/2)%2 == 0)
+		st := sc.byName[spec.Name]
 		ops := append(append([]Op{}, e.Path...), e.Act)
-		runOps(sc, sc.streams[0], ops, (variant/4)%2 == 0)
+		runOps(sc, st, ops, (variant/4)%2 == 0)
 		sc.shutdown()
 		sc.flush(tw, &scID, map[string]any{"edge": i, "reuse": sc.reuse})
 		res.Executed++
-		res.Count("cycles", int64(sc.streams[0].ncycles))
+		res.Count("cycles", int64(st.ncycles))
+		res.Count("unknown_metrics", int64(sc.errs))
 		countRegimes(res, sc)
 		if i%1999 == 1 {
-			res.Sample(map[string]any{"cfg": spec.Cfg, "ops": ops, "last": sc.streams[0].lines[len(sc.streams[0].lines)-1]})
+			res.Sample(map[string]any{"cfg": spec.Cfg, "ops": ops, "last": st.lines[len(st.lines)-1]})
 		}
 	}
 	vh.Must(tw.Close())
